@@ -39,25 +39,40 @@ def kill_confirmation(ctx):
     cmds = []
     try:
         for e in entries:
-            for mode in (("existing", "inplace") if e.get("inplace") else ("existing",)):
+            modes = ["existing"] + (["inplace"] if e.get("inplace") else []) + (["stdin", "stdin-longname"] if e.get("stream") else []) + ["longname"]
+            for mode in modes:
                 def setup():
                     sb = cli.Sandbox(base=d)
                     inp = cli.prepare_input(binp, sb, e)
-                    out = sb.p("out/out.pdf")
-                    if mode == "existing":
+                    # longname: the hidden staging name next to the destination exceeds NAME_MAX, so staging cannot be created
+                    out = sb.p("out/" + ("o" * 236 + ".pdf" if mode.endswith("longname") else "out.pdf"))
+                    if mode == "inplace":
+                        out, dest = None, inp
+                    else:
                         shutil.copy(cli.INPUTS["rot"], out)
                         dest = out
-                    else:
-                        out, dest = None, inp
                     return sb, inp, out, dest
+
+                def runit(sb, inp, out, env):
+                    if mode.startswith("stdin"):
+                        return cli.run(binp, sb, cli.fill(e["argv"], sb, "-", out, sb.p("out")), extra_env=env, force=True, stdin=open(inp, "rb").read())
+                    return cli.run(binp, sb, cli.fill(e["argv"], sb, inp, out, sb.p("out")), extra_env=env, force=(mode != "inplace"))
                 # reference run, recording the number of calls
                 sb, inp, out, dest = setup()
                 try:
                     tr = sb.p("tmp/trace.ndjson")
                     env = {"VERIF_OS_ROOT": sb.root, "VERIF_OS_TRACE": tr}
                     old = open(dest, "rb").read()
-                    p = cli.run(binp, sb, cli.fill(e["argv"], sb, inp, out, sb.p("out")), extra_env=env, force=(mode == "existing"))
+                    p = runit(sb, inp, out, env)
                     if p.returncode != 0:
+                        # a command that cannot stage its output (name too long) must leave the existing destination alone
+                        now = open(dest, "rb").read() if os.path.exists(dest) else None
+                        if now != old:
+                            ctx.report("nokill|%s|%s|dest changed by a failing command" % (e["id"], mode),
+                                       "%s [%s]: the command failed (%s) and the existing destination %s" % (
+                                           e["id"], mode, p.stderr.decode(errors="replace")[-120:].strip(), "is gone" if now is None else "holds %d other bytes" % len(now)),
+                                       dict(cmd=e["id"], mode=mode))
+                        cmds.append("%s/%s (fails cleanly)" % (e["id"], mode))
                         continue
                     n = sum(1 for _ in open(tr)) if os.path.exists(tr) else 0
                     ref = sb.p("tmp/ref.pdf")
@@ -77,7 +92,7 @@ def kill_confirmation(ctx):
                             env2 = {"VERIF_OS_ROOT": sb2.root, "VERIF_OS_FAULT_AT": str(k), "VERIF_OS_FAULT_KIND": "kill"}
                             old2 = open(dest2, "rb").read()
                             before = set(os.listdir(os.path.dirname(dest2)))
-                            p2 = cli.run(binp, sb2, cli.fill(e["argv"], sb2, inp2, out2, sb2.p("out")), extra_env=env2, force=(mode == "existing"))
+                            p2 = runit(sb2, inp2, out2, env2)
                             kills += 1
                             if p2.returncode != -signal.SIGKILL:
                                 continue    # the k-th call of this run was never reached (output is not byte-deterministic): not a crash point
